@@ -128,3 +128,12 @@ chk("C16", MC,
     "cycle, every message fits the mailbox, no conformance complaint from the server, no exception.",
     PY_NOTE + " CoE server model vf/coemodel.py written from ETG.1000.6 5.6.2.",
     "symbolic execution of the real coroutines against a nondeterministic protocol server model (z3, path-exhaustive)", "B:8/C16")
+
+chk("C17", MC,
+    "The real Terminal._eeprom_read_one/read_eeprom run symbolically against an SII register model (image content, identity "
+    "words, category word-lengths 0..3 (6), busy polls, 4-/8-byte read capability symbolic; category types enumerated): "
+    "identity fields and every category's bytes are returned exactly as stored. parse_sync_managers on 1..4 fully symbolic "
+    "entries and parse_pdos (EEPROM source) on PDO lists with symbolic bit lengths and solver-chosen gaps: every area / "
+    "entry gets the stored offset, size, bit position; misaligned byte entries are rejected.",
+    PY_NOTE + " SII model per the ESC register description (0x502 control/status, 0x504 address, 0x508 data).",
+    "symbolic execution of the real coroutines against a register-level EEPROM interface model (z3, path-exhaustive)", "B:8/C17")
